@@ -27,7 +27,7 @@ func (c02) Info() core.Info {
 		ID:    "C02",
 		Title: "Scan narrowing never loses a row",
 		Level: "exploration",
-		Rule: "all predicate trees of depth <= 2 (quick) / 3 (thorough, reduced pool) over key-constraining atoms (key op l and l op key for = != ^= > >= < <=, IN lists of 1..2 (3) literals, BETWEEN) and opaque atoms (value = 'x', true, false), literals from {'',a,ab,b,c}, connectives & | and or !; executed on stores over a key universe of all strings of length 1..3 over {0,a,b,c,z}, which the check proves (at run time) realises every order/prefix relation vector a key can have to the literal pool. " +
+		Rule: "all predicate trees of depth <= 2 (quick) / 3 (thorough, reduced pool) over key-constraining atoms (key op l and l op key for = != ^= > >= < <=, IN lists of 1..2 (3) literals, BETWEEN) and opaque atoms (value = 'x', true, false), literals from {'',a,ab,b,c}, connectives & | and or !; executed on stores over a key universe of all strings of length 0..3 over {0,a,b,c,z} (the empty key included), which the check proves (at run time) realises every order/prefix relation vector a key can have to the literal pool. " +
 			"Oracles: (a) rows of the optimised plan == pairs accepted by FilterExec.Filter of the un-optimised parse, in key order, row and batch mode; (b) region of the chosen scan node ⊇ satisfying keys; (c) `delete where P` leaves prior − satisfying keys. Non-trivial: access path narrower than a full scan and predicate satisfiable on the store. Distinct: (predicate text, store).",
 		Assumptions: []string{
 			"the un-optimised per-pair filter (FilterExec.Filter) is the yardstick here; its own semantics are C01's subject",
@@ -85,14 +85,14 @@ func allStrings(alpha string, minLen, maxLen int) []string {
 
 func c02Init() {
 	c02Once.Do(func() {
-		c02Universe = allStrings("0abcz", 1, 3)
+		c02Universe = allStrings("0abcz", 0, 3)
 		sort.Strings(c02Universe)
 		have := map[string]bool{}
 		for _, k := range c02Universe {
 			have[relVector(k, litsLt)] = true
 		}
 		c02Vectors = len(have)
-		for _, k := range allStrings("!0abcz~", 1, 4) {
+		for _, k := range allStrings("!0abcz~", 0, 4) {
 			if !have[relVector(k, litsLt)] {
 				c02Adequacy = "key " + k + " has a relation vector not realised in the universe"
 				return
